@@ -546,6 +546,180 @@ class SpecStream(_InheritStream):
         return obs
 
 
+# ---------------------------------------------------------------------------------------------
+# syntactic flattening, written independently of the Lean `flattenSyn`
+def flatten_syn(chain):
+    """chain: templates (lists of tops) leaf first -> (plain tree, finite). Plain nodes:
+    ["t",s] ["v",x] ["l",v,n,body] ["scope",body] ["outer",body] ["raise",cls]."""
+    defs: dict = {}
+    for tops in chain:
+        for b in blocks_of([t for t in tops if t[0] != "x"]):
+            defs.setdefault(b[1], []).append(b)
+    finite = [True]
+
+    def go(items, supers, depth):
+        out = []
+        for it in items:
+            k = it[0]
+            if k in ("t", "v"):
+                out.append(it)
+            elif k == "s":
+                out.append(["outer", go(supers[0][3], supers[1:], depth)] if supers else ["t", ""])
+            elif k == "l":
+                out.append(["l", it[1], it[2], go(it[3], supers, depth)])
+            elif k == "b":
+                ds = defs.get(it[1]) or []
+                if not ds:
+                    out.append(["raise", "RequiredBlockError"] if it[2] else ["scope", go(it[3], [], depth)])
+                elif ds[0][2]:
+                    out.append(["raise", "RequiredBlockError"])
+                elif depth > LIMIT:
+                    finite[0] = False
+                    out.append(["raise", "ContextDepthError"])
+                else:
+                    out.append(["scope", go(ds[0][3], ds[1:], depth + 1)])
+        return out
+
+    root = [t for t in chain[-1] if t[0] != "x"]
+    return go(root, [], 0), finite[0]
+
+
+def plain_hygienic(nodes, under_loop=False) -> bool:
+    """no first-level super body (outer) directly under a for of the definition that calls it"""
+    for n in nodes:
+        k = n[0]
+        if k == "l":
+            if not plain_hygienic(n[3], True):
+                return False
+        elif k == "scope":
+            if not plain_hygienic(n[1], False):
+                return False
+        elif k == "outer":
+            if under_loop or not plain_hygienic(n[1], False):
+                return False
+    return True
+
+
+def plain_has_raise(nodes) -> bool:
+    return any(n[0] == "raise" or (n[0] == "l" and plain_has_raise(n[3])) or (n[0] in ("scope", "outer") and plain_has_raise(n[1])) for n in nodes)
+
+
+def src_plain(nodes) -> str:
+    out = []
+    for n in nodes:
+        k = n[0]
+        if k == "t":
+            out.append(n[1])
+        elif k == "v":
+            out.append("{{ " + n[1] + " }}")
+        elif k == "l":
+            out.append("{% for " + n[1] + " in (1.." + str(n[2]) + ") %}" + src_plain(n[3]) + "{% endfor %}")
+        elif k in ("scope", "outer"):
+            out.append(src_plain(n[1]))
+        else:
+            out.append("<!" + n[1] + ">")
+    return "".join(out)
+
+
+class SynStream(_InheritStream):
+    """The syntactic flattening: (a) Lean `flattenSyn` rendered by the plain renderer against the implementation's
+    render of the chain; (b) the Liquid source of the annotation-free flattened template, computed independently in
+    Python and by Lean, must be the same text; (c) when the flattened template is hygienic and has no raise node,
+    that source is rendered by a real Environment *without* the extra tags and must give the chain's output."""
+
+    name = "syn"
+
+    def cases(self, ctx):
+        out = [c for c in PoolStream().cases(ctx) if chain_of(c) is not None and not chain_of(c)[0]]
+        rng = ctx.rng_for("syn")
+        n = ctx.scale(500, 8000)
+        tries = 0
+        while n > 0 and tries < 200000:
+            tries += 1
+            c = gen_chain(rng)
+            if c["kind"] == "plain" and chain_of(c) is not None and not chain_of(c)[0]:
+                out.append(c)
+                n -= 1
+        return out
+
+    def impl(self, case):
+        obs = super().impl(case)
+        _, chain = chain_of(case)
+        plain, finite = flatten_syn(chain)
+        hyg = plain_hygienic(plain)
+        res = {"chain": obs, "finite": finite, "hygienic": hyg, "src": src_plain(plain), "flat": None}
+        if hyg and not plain_has_raise(plain):
+            from liquid import Environment
+
+            try:
+                res["flat"] = {"ok": Environment().from_string(res["src"]).render(**dict((k, v) for k, v in case["data"]))}
+            except Exception as e:
+                res["flat"] = {"err": type(e).__name__}
+        return res
+
+    def line(self, case):
+        _, chain = chain_of(case)
+        return ["flatsyn", LIMIT, chain, case["data"]]
+
+    def compare_view(self, case, obs):
+        return {"out": _InheritStream.compare_view(self, case, obs["chain"]), "finite": obs["finite"], "hygienic": obs["hygienic"], "src": obs["src"]}
+
+    def canon_model(self, case, mobs):
+        if isinstance(mobs, dict) and "out" in mobs:
+            return {"out": _InheritStream.canon_model(self, case, mobs["out"]), "finite": mobs["finite"], "hygienic": mobs["hygienic"], "src": mobs["src"]}
+        return mobs
+
+    def oracle(self, case, obs):
+        v = oracle_case(case, obs["chain"], self.name)
+        if v:
+            return v
+        if obs["flat"] is not None and obs["flat"] != obs["chain"]:
+            return ("syn|flattened-template-differs", f"chain renders {obs['chain']}, its flattened template {obs['src']!r} renders {obs['flat']}")
+        return None
+
+    def nontrivial(self, case, obs):
+        return super().nontrivial(case, obs["chain"])
+
+    def tags(self, case, obs):
+        t = super().tags(case, obs["chain"])
+        t.append("hygienic" if obs["hygienic"] else "needs-scope-annotation")
+        t.append("flat-rendered" if obs["flat"] is not None else "flat-not-rendered")
+        if not obs["finite"]:
+            t.append("not-finite")
+        return t
+
+
+class AsyncStream(_InheritStream):
+    """The asynchronous twin (`render_async`: `_build_block_stacks_async`, `render_to_output_async` of both nodes) on
+    the pool chains and random chains; same model, same oracle."""
+
+    name = "async"
+
+    def cases(self, ctx):
+        rng = ctx.rng_for("async")
+        return PoolStream().cases(ctx) + [gen_chain(rng) for _ in range(ctx.scale(700, 10000))]
+
+    def impl(self, case):
+        import asyncio
+
+        from liquid import Environment
+        from liquid.builtin import DictLoader
+
+        sources = {}
+        for name, tops in case["templates"]:
+            sources.setdefault(name, src_items(tops))
+        env = Environment(extra=True, loader=DictLoader(sources))
+
+        async def go():
+            t = await env.get_template_async(case["leaf"])
+            return await t.render_async(**dict((k, v) for k, v in case["data"]))
+
+        try:
+            return {"ok": asyncio.run(go())}
+        except Exception as e:
+            return {"err": type(e).__name__}
+
+
 def nest(names, inner, req=False):
     items = inner
     for n in reversed(names):
@@ -663,4 +837,4 @@ class EndblockStream(Stream):
 
 
 def streams(ctx):
-    return [PoolStream(), GraphStream(), ChainStream(), SpecStream(), DeepStream(), EndblockStream()]
+    return [PoolStream(), GraphStream(), ChainStream(), SpecStream(), SynStream(), AsyncStream(), DeepStream(), EndblockStream()]
